@@ -628,7 +628,9 @@ func (m *intraProxyManager) ensureStream(
 	// Fast path: already exists
 	m.streamsMu.RLock()
 	if ps, ok := m.peers[peerNodeName]; ok && ps != nil {
-		if r, ok2 := ps.receivers[key]; ok2 && r != nil && r.streamClient != nil {
+		// A registered receiver counts as existing even while it is still opening its stream: creating a second one
+		// for the same pair would orphan the first (it removes itself when its stream fails or ends).
+		if r, ok2 := ps.receivers[key]; ok2 && r != nil {
 			m.streamsMu.RUnlock()
 			logger.Debug("ensureStream reused")
 			return nil
@@ -658,6 +660,11 @@ func (m *intraProxyManager) ensureStream(
 	// initialize shutdown handle and register it for lifecycle management
 	recv.shutdown = channel.NewShutdownOnce()
 	m.streamsMu.Lock()
+	if existing, ok := ps.receivers[key]; ok && existing != nil {
+		// another caller registered a receiver for this pair in the meantime
+		m.streamsMu.Unlock()
+		return nil
+	}
 	ps.receivers[key] = recv
 	ps.recvShutdown[key] = recv.shutdown
 	m.streamsMu.Unlock()
@@ -668,10 +675,12 @@ func (m *intraProxyManager) ensureStream(
 		if err := recv.Run(ctx, m.shardManager, ps.conn); err != nil {
 			m.loggers.Get(logging.ShardRouting).Error("intraProxyStreamReceiver.Run error", tag.Error(err))
 		}
-		// remove the receiver from the peer state
+		// remove the receiver from the peer state, unless the entry belongs to a successor by now
 		m.streamsMu.Lock()
-		delete(ps.receivers, key)
-		delete(ps.recvShutdown, key)
+		if ps.receivers[key] == recv {
+			delete(ps.receivers, key)
+			delete(ps.recvShutdown, key)
+		}
 		m.streamsMu.Unlock()
 	}()
 	return nil
